@@ -3,16 +3,23 @@ let nn s = n_of_int (ios s)
 let nt s = nat_of_int (ios s)
 let split c s = String.split_on_char c s
 let access = function "cur" -> PaCurrent | "bool" -> PaBool | "repr" -> PaRepr | "get" -> PaGetAttr | "set" -> PaSetAttr
+  | "msg" -> PaMessage
+  | s when String.length s > 1 && s.[0] = 'e' -> PaEntry (nt (String.sub s 1 (String.length s - 1)))
   | _ -> failwith "access"
+let msg m = if m = "0" then None else Some (nn m)
+let locals l = List.map (fun e -> (e.[0] = 's', nt (String.sub e 1 (String.length e - 1)))) (if l = "-" then [] else split ',' l)
+let fbname = function FbNone -> "FbNone" | FbFalse -> "FbFalse" | FbTrue -> "FbTrue" | FbUnboundRepr -> "FbUnboundRepr"
+  | FbEmptyList -> "FbEmptyList" | FbTypeDoc -> "FbTypeDoc" | FbWrapped -> "FbWrapped" | FbTypeSelf -> "FbTypeSelf" | FbOther -> "FbOther"
 let op_of (t : string list) : op = match t with
   | ["set"; v; k; x] -> OpSet (nt v, nn k, nn x) | ["get"; v; k] -> OpGet (nt v, nn k)
   | ["del"; v; k] -> OpDel (nt v, nn k) | ["iter"; v] -> OpIter (nt v) | ["lrel"; v] -> OpLRelease (nt v)
   | ["push"; v; x] -> OpPush (nt v, nn x) | ["pop"; v] -> OpPop (nt v) | ["top"; v] -> OpTop (nt v)
   | ["srel"; v] -> OpSRelease (nt v)
-  | ["clean"; l] -> OpCleanup (List.map (fun e -> (e.[0] = 's', nt (String.sub e 1 (String.length e - 1))))
-                                 (if l = "-" then [] else split ',' l))
+  | ["clean"; l] -> OpCleanup (locals l)
   | ["spawn"] -> OpSpawn | ["thread"] -> OpThread | ["mwopen"] -> OpMwOpen | ["mwdrop"] -> OpMwDrop
-  | ["mkp"; "l"; v; k] -> OpMkProxy (PLocal (nt v, nn k)) | ["mkp"; "s"; v] -> OpMkProxy (PStack (nt v))
+  | ["mkp"; "l"; v; k; m] -> OpMkProxy (PLocal (nt v, nn k, msg m)) | ["mkp"; "s"; v; tw; m] -> OpMkProxy (PStack (nt v, tw = "1", msg m))
+  | ["mwclose"; l; ac] -> OpMwClose (locals l, (if ac = "-" then None else
+      match split '.' ac with [v; k; x] -> Some ((nt v, nn k), nn x) | _ -> failwith "ac"))
   | ["px"; i; a] -> OpProxy (nt i, access a)
   | _ -> failwith "op"
 let step_of (tok : string) = match split ':' tok with
@@ -25,6 +32,8 @@ let show = function
   | OAttrError -> "attrerr" | ORuntimeError -> "rterr" | OBool b -> if b then "bool:1" else "bool:0"
   | ORepr None -> "repr:unbound" | ORepr (Some x) -> "repr:" ^ si x
   | OCtx c -> "ctx:" ^ string_of_int (int_of_nat c) | OProxy i -> "proxy:" ^ string_of_int (int_of_nat i)
+  | OFwd (_, x) -> "fwd:" ^ si x | OFallback k -> "fb:" ^ fbname k
+  | OMsg None -> "msg:default" | OMsg (Some m) -> "msg:" ^ si m
   | OInvalid -> "invalid" | OStuck -> "stuck"
 let () = iter_lines (fun line ->
   match fields line with
